@@ -125,6 +125,26 @@ Definition pcmp (e : pexpr) (t : tn) : nat :=
   | None => 2
   end.
 
+(* central difference quotient of the model's exact evaluation vs externally supplied derivatives *)
+Definition FRTOL : Qc := Q2Qc (1 # 10000).
+Definition FATOL : Qc := Q2Qc (1 # 1000000).
+Definition mclose_fd (a b : list cvec) : bool :=
+  let s := qmax (mmaxabs a) (mmaxabs b) in mclose_ FRTOL (FATOL * s)%Qc a b.
+Definition fd_check (cp cm : circuit) (ys : list asg) (inv2h : C) (g : list (list cvec)) : nat :=
+  let cp := prep cp in let cm := prep cm in
+  if length ys =? length g then
+    nmin (map (fun p =>
+                 match den cp (fst p), den cm (fst p) with
+                 | Some a, Some b =>
+                     let q := map2 (fun u v => map2 (fun x y => cmul inv2h (csub x y)) u v) a b in
+                     if mclose_fd q (snd p) then 1 else 0
+                 | _, _ => 2
+                 end) (combine ys g))
+  else 0.
+
+Fixpoint NoDup_b (l : list nat) : bool :=
+  match l with [] => true | x :: r => negb (existsb (Nat.eqb x) r) && NoDup_b r end.
+
 (* constructors the generated files use *)
 Definition q (n : Z) (d : positive) : C := cre (Q2Qc (n # d)).
 Definition qc (n : Z) (d : positive) (n' : Z) (d' : positive) : C := (Q2Qc (n # d), Q2Qc (n' # d')).
